@@ -836,7 +836,17 @@ def payload_ty(ty, variant):
 def variants_at(an, bb, local):
     """variant names the whole local `local` can have at bb, from dominating switches on its discriminant
     (only sound if the local is not re-assigned in between: checked by single definition)"""
-    if len(an.defs(local)) != 1:
+    ds = an.defs(local)
+    if len(ds) > 1 and all(d[0] == 'stmt' and d[3].rv.kind == 'agg' and d[3].rv.j.get('variant') for d in ds):
+        # every definition constructs a known variant (`?` written out on a value of known variant): the variants of the
+        # definitions that reach bb
+        out = set()
+        for d in ds:
+            others = [x[1] for x in ds if x[1] != d[1]]
+            if d[1] == bb or bb in an.reach([d[1]], ('normal', 'cancel'), avoid=others):
+                out.add(d[3].rv.j['variant'])
+        return out or None
+    if len(ds) != 1:
         return None
     names = None
     doms = an.doms(('normal', 'cancel')).get(bb) or an.doms(('normal',)).get(bb) or ()
